@@ -6,7 +6,8 @@
 (* every permission setting, entry-count limit scaled to 3.                *)
 (*                                                                         *)
 (* Keys: 1 owner, 2 writer, 3 stranger.  Addresses: 1 the register, 2      *)
-(* another register of the same owner.                                     *)
+(* another register of the same owner, 3 the register with the SAME meta   *)
+(* as 1 owned by key 2 (the owner half of the address differs).            *)
 (*                                                                         *)
 (* MaxDepth = 0 (MCSpec): TLC explores every state reachable in fewer    *)
 (* than MaxLevel calls (every delivery order, duplication, merge order,    *)
@@ -29,20 +30,26 @@ FullPool == <<
     Op(1, FALSE, FALSE, {},  1, 5),     \* 5 claims the owner, signature does not verify
     Op(1, TRUE,  TRUE,  {},  1, 6),     \* 6 owner, oversized entry
     Op(2, TRUE,  FALSE, {},  2, 7),     \* 7 writer, made for another register (address 2)
-    Op(1, TRUE,  FALSE, {3, 2}, 1, 8)   \* 8 owner, on top of 3 and 2 (chain of depth 3, joins branches)
+    Op(1, TRUE,  FALSE, {3, 2}, 1, 8),  \* 8 owner, on top of 3 and 2 (chain of depth 3, joins branches)
+    Op(2, TRUE,  FALSE, {},  3, 9)      \* 9 key 2, made for the register of the same meta that key 2 owns (address 3)
   >>
 MCPool == [i \in 1..PoolSize |-> FullPool[i]]
 
 WritersOf(p) == CASE p = "owner" -> {1} [] p = "writer" -> {1, 2} [] p = "anyone" -> {}
-BaseOf(p, a, sig) == [addr |-> a, open |-> p = "anyone", writers |-> WritersOf(p), sigOk |-> sig]
+\* the owner of a register is always among its writers (Register::new): key 1 for addresses 1 and 2, key 2 for 3
+OwnerOf(a) == IF a = 3 THEN 2 ELSE 1
+BaseOf(p, a, sig) == [addr |-> a, open |-> p = "anyone",
+                      writers |-> IF p = "anyone" THEN {} ELSE WritersOf(p) \cup {OwnerOf(a)}, sigOk |-> sig]
 NextPerm(p) == CASE p = "owner" -> "writer" [] p = "writer" -> "anyone" [] p = "anyone" -> "owner"
 
 \* replicas 1 and 2 share the register; the last honest replica is, depending on `third`, a
-\* replica of the same register, of one with other permissions, or of another address
+\* replica of the same register, of one with other permissions, of another address (other meta), or of
+\* the same meta under another owner
 MCInitBases ==
     { [r \in Replicas |->
           IF r = 3 /\ th = "perm" THEN BaseOf(NextPerm(p), 1, TRUE)
           ELSE IF r = 3 /\ th = "addr" THEN BaseOf(p, 2, TRUE)
+          ELSE IF r = 3 /\ th = "owner" THEN BaseOf(p, 3, TRUE)
           ELSE BaseOf(p, 1, TRUE)] : p \in Perms, th \in Thirds }
 
 MCView == <<base, ops, given, lim>>
@@ -55,6 +62,8 @@ MCSpec == Init /\ [][MCNext]_vars
 Cr(cs, sig) == [cs |-> cs, sig |-> sig]
 CraftsQuick == {Cr({1, 3}, TRUE), Cr({4}, TRUE), Cr({5}, TRUE), Cr({6}, TRUE), Cr({7}, TRUE),
                 Cr({1, 2, 3}, TRUE), Cr({1, 2, 3, 4}, TRUE), Cr({1}, FALSE)}
+\* with the whole pool (PoolSize = 9): also operations made for the register of the other owner
+CraftsSim == CraftsQuick \cup {Cr({9}, TRUE), Cr({1, 9}, TRUE), Cr({8}, TRUE)}
 CraftsThorough == {Cr({o}, TRUE) : o \in 1..PoolSize}
                   \cup {Cr({1, 3}, TRUE), Cr({2, 3}, TRUE), Cr({3, 8}, TRUE), Cr({4, 5}, TRUE), Cr({1, 7}, TRUE),
                         Cr({1, 2, 3}, TRUE), Cr({1, 2, 3, 8}, TRUE), Cr({1}, FALSE), Cr({}, FALSE)}
